@@ -3,6 +3,7 @@ import MV.Driver.Graph
 import MV.Driver.MWU
 import MV.Driver.Discrete
 import MV.Driver.Hist
+import MV.Driver.Sample
 open MV
 
 /-- ops whose handler models panics itself -/
@@ -15,6 +16,8 @@ def dispatchOp (ins outs : List J) : Verdict :=
   | .atom "mwu" :: rest => MWU.handleMWU rest outs
   | .atom "bin" :: rest => Discrete.handleBin rest outs
   | .atom "lh" :: rest => Hist.handleLin rest outs
+  | .atom "smp" :: rest => Sample.handle rest outs
+  | .atom "vec" :: rest => Sample.handleVec rest outs
   | .atom "gh" :: rest => Hist.handleLog rest outs
   | .atom "hyp" :: rest => Discrete.handleHyp rest outs
   | .atom op :: rest =>
